@@ -75,11 +75,41 @@ class Pipe(chan.ChannelScenario):
             else:
                 act = lambda sock=sock, data=data: sock.client_send(data)
             S.env_events.append((g, act, f"seg:{len(data)}"))
+        if "window" in p:
+            sock.window = p["window"]
+        for dr in p.get("drains", []):
+            if dr == "reset":
+                S.env_events.append((None, lambda sock=sock: sock.client_reset(), "reset"))
+            elif dr == "eof":
+                S.env_events.append((None, lambda sock=sock: sock.client_eof(), "eof"))
+            else:
+                S.env_events.append((None, lambda sock=sock, dr=dr: sock.client_drain(dr), f"drain:{dr}"))
+        # bookkeeping for C12: pending output and the size of single writes
+        track = dict(max_total=0, max_write=0, worst=None)
+        orig_ws = ch.write_soon
+
+        def write_soon(data):
+            n = len(data)
+            if n > track["max_write"]:
+                track["max_write"] = n
+            return orig_ws(data)
+
+        ch.write_soon = write_soon
         for flag in p.get("release", []):
             S.env_events.append((None, lambda f=flag: flags.__setitem__(f, True), f"release:{flag}"))
         self.start_io(S, srv, m, p.get("poll2", False))
-        S.fp = lambda: (self.chan_fp(ch, sock), len(disp.queue), disp.stop_count, disp.active_count, len(app.events), tuple(sorted(flags)))
-        return dict(srv=srv, ch=ch, sock=sock, app=app, ref=ref, disp=disp, map=m, flags=flags)
+        wm = srv.adj.outbuf_high_watermark
+
+        def fp():
+            t = ch.total_outbufs_len
+            if t > track["max_total"]:
+                track["max_total"] = t
+            if t > wm + track["max_write"] and track["worst"] is None:
+                track["worst"] = (t, wm, track["max_write"])
+            return (self.chan_fp(ch, sock), len(disp.queue), disp.stop_count, disp.active_count, len(app.events), tuple(sorted(flags)))
+
+        S.fp = fp
+        return dict(srv=srv, ch=ch, sock=sock, app=app, ref=ref, disp=disp, map=m, flags=flags, track=track)
 
     def oracle(self, ctx, S, W, reason):
         v = []
